@@ -64,7 +64,7 @@ func c1Namespaces(c *Ctx, rule string) {
 			if r := resolve(st, a); r != nil && isJSONEnc(r.Type()) {
 				// only ObjectEncoder offers OpenNamespace; through ArrayEncoder / PrimitiveArrayEncoder user code can
 				// add balanced values only
-				return r, strings.HasSuffix(a.Type().String(), "zapcore.ObjectEncoder")
+				return r, strings.HasSuffix(TStr(a.Type()), "zapcore.ObjectEncoder")
 			}
 		}
 		return nil, false
@@ -99,11 +99,11 @@ func c1Namespaces(c *Ctx, rule string) {
 					}
 				}
 				for _, a := range x.Call.Args {
-					if strings.HasSuffix(a.Type().String(), "zapcore.ObjectEncoder") {
+					if strings.HasSuffix(TStr(a.Type()), "zapcore.ObjectEncoder") {
 						touches[f] = true
 					}
 				}
-				if x.Call.IsInvoke() && strings.HasSuffix(x.Call.Value.Type().String(), "zapcore.ObjectEncoder") {
+				if x.Call.IsInvoke() && strings.HasSuffix(TStr(x.Call.Value.Type()), "zapcore.ObjectEncoder") {
 					touches[f] = true
 				}
 			}
